@@ -15,10 +15,23 @@
  * reference decoding.  ASan/UBSan and libcoap's asserts are live in the asan stage; the input is an
  * exact-size heap copy and the target pdu is sized by the input (coap_pdu_init(0,0,0,len)).
  *
- * Signatures:
+ * Signatures (one defect class = one signature; a different defect must not hide behind a known one):
  *   accept:<reference reject reason>[:detail]:<framing>   libcoap accepted what the reference rejects
- *   reject:<smallest part still rejected>:<framing>       libcoap rejected a well-formed message
+ *       opt-number>65535:delta-ext-<HH>xx   one delta that is itself > 65535, named by its high extension byte
+ *       opt-number>65535:sum                a sum of legal deltas
+ *       opt-length-limit:opt<N>-below-min | opt<N>-above-max | len>=65536
+ *   reject:<smallest part still rejected on its own>:<framing>   libcoap rejected a well-formed message
+ *       found by re-encoding header+token / each option alone / the payload with the reference encoder:
+ *       stream-length-prefix(len-<form>,tkl-<form>,frame-short|frame-long), token(..), header(code=..),
+ *       opt<N>-len<L> (L at a limit) | opt<N>-len-inside-limits(<class>), opt-number-65535, opt-number(<class>),
+ *       opt-no-limits(number-<class>,len-<class>), payload, combination(..)
  *   mismatch:<first differing field>:<framing>            both accept, accessors differ from the wire
+ *       type code mid token-length token option-count option-number option-length option-value
+ *       payload-length payload
+ *   asan:/ubsan:/assert: signatures come from the vxp machinery.
+ *
+ * One vxp index is a batch of consecutive cases (see batch_fn); replaying an artefact re-runs the batch
+ * and prints every failing case of it.
  */
 #include <coap3/coap_internal.h>
 #include "vx.h"
@@ -130,25 +143,46 @@ nibclass(size_t v) {
   return v <= 12 ? "nibble" : v <= 268 ? "ext8" : "ext16";
 }
 
-/* one probe: encode with the reference, hand to libcoap, 1 = accepted */
-static int
-probe(const struct rc_emsg *e) {
+/* one probe: encode with the reference, hand to libcoap */
+static enum lc_status
+probe_status(const struct rc_emsg *e) {
   size_t cap = 16 + e->token_len + e->payload_len;
   for (int i = 0; i < e->nopts; i++)
     cap += 5 + e->opts[i].len;
   uint8_t *b = malloc(cap);
   size_t n = rc_encode(e, b, cap);
-  int ok = 0;
+  enum lc_status st = LC_NO_BYTES;
   if (n) {
     uint8_t *x = malloc(n);
     memcpy(x, b, n);
     coap_pdu_t *pdu;
-    ok = lc_run(e->framing, x, n, &pdu) == LC_ACCEPT;
+    st = lc_run(e->framing, x, n, &pdu);
     coap_delete_pdu(pdu);
     free(x);
   }
   free(b);
-  return ok;
+  return st;
+}
+
+static const char *
+lenform(uint64_t body) {
+  return body <= 12 ? "nibble" : body <= 268 ? "ext8" : body <= 65804 ? "ext16" : "ext32";
+}
+
+/* 1 = accepted.  A probe that is mis-framed by the stream length prefix is a finding of its own. */
+static int
+probe(const struct rc_emsg *e, char *what, size_t n) {
+  enum lc_status st = probe_status(e);
+  if (st == LC_FRAME_SHORT || st == LC_FRAME_LONG || st == LC_TOO_BIG) {
+    uint64_t body = e->payload_len ? 1 + e->payload_len : 0;
+    for (int i = 0; i < e->nopts; i++)
+      body += 1 + (e->opts[i].number > 12) + (e->opts[i].number > 268) + (e->opts[i].len > 12) + (e->opts[i].len > 268) +
+              e->opts[i].len;
+    snprintf(what, n, "stream-length-prefix(len-%s,tkl-%s,%s)", lenform(body), nibclass(e->token_len), lc_name(st));
+    return 0;
+  }
+  what[0] = 0;
+  return st == LC_ACCEPT;
 }
 
 /* libcoap rejected a message the reference calls well-formed: name the smallest part of it that is
@@ -164,7 +198,9 @@ diagnose_reject(enum rc_framing f, const uint8_t *bytes, enum lc_status ls, char
     return;
   }
   struct rc_emsg e = {f, m->type, m->code, m->mid, bytes + m->token_off, m->token_len, NULL, 0, NULL, 0};
-  if (!probe(&e)) {
+  if (!probe(&e, what, n)) {
+    if (what[0])
+      return;
     if (m->token_len)
       snprintf(what, n, "token(len-%s%s)", nibclass(m->token_len),
                m->token_len > 8 && m->token_len <= 12 ? ",9-12" : "");
@@ -177,12 +213,30 @@ diagnose_reject(enum rc_framing f, const uint8_t *bytes, enum lc_status ls, char
     struct rc_eopt o = {m->opts[i].number, bytes + m->opts[i].val_off, m->opts[i].len};
     e.opts = &o;
     e.nopts = 1;
-    if (!probe(&e)) {
+    if (!probe(&e, what, n)) {
       size_t mn, mx;
-      if (rc_opt_limits(m->code, o.number, &mn, &mx))
-        snprintf(what, n, "opt%u-len%zu%s", o.number, o.len, (m->code >> 5) == 7 ? "(signalling)" : "");
-      else
-        snprintf(what, n, "opt-no-limits(number-%s,len-%s)", nibclass(o.number), nibclass(o.len));
+      if (what[0])
+        return;
+      if (rc_opt_limits(m->code, o.number, &mn, &mx)) {
+        /* concrete length only at the limits, so that a whole broken length class is one signature */
+        if (o.len == mn || o.len == mx)
+          snprintf(what, n, "opt%u-len%zu%s", o.number, o.len, (m->code >> 5) == 7 ? "(signalling)" : "");
+        else
+          snprintf(what, n, "opt%u-len-inside-limits(%s)%s", o.number, nibclass(o.len),
+                   (m->code >> 5) == 7 ? "(signalling)" : "");
+      } else {
+        /* is it the number alone (same option, empty value)? */
+        struct rc_eopt o0 = {o.number, NULL, 0};
+        char w2[120];
+        e.opts = &o0;
+        if (!probe(&e, w2, sizeof w2)) {
+          if (o.number == 65535)
+            snprintf(what, n, "opt-number-65535");
+          else
+            snprintf(what, n, "opt-number(%s)", nibclass(o.number));
+        } else
+          snprintf(what, n, "opt-no-limits(number-%s,len-%s)", nibclass(o.number), nibclass(o.len));
+      }
       return;
     }
   }
@@ -191,8 +245,9 @@ diagnose_reject(enum rc_framing f, const uint8_t *bytes, enum lc_status ls, char
   if (m->payload_len) {
     e.payload = bytes + m->payload_off;
     e.payload_len = m->payload_len;
-    if (!probe(&e)) {
-      snprintf(what, n, "payload");
+    if (!probe(&e, what, n)) {
+      if (!what[0])
+        snprintf(what, n, "payload");
       return;
     }
   }
@@ -266,7 +321,13 @@ check_case(enum rc_framing f, const uint8_t *bytes, size_t len) {
       coap_option_iterator_init(pdu, &oi, COAP_OPT_ALL);
       while (coap_option_next(&oi))
         last = oi.number;
-      snprintf(sig, sizeof sig, "accept:%s:%s", rc_reason_name(rr), fr);
+      /* which arithmetic let it through: one delta that is itself > 65535 (named by the high extension
+       * byte, the low byte only decides how far it wraps) or a sum of legal deltas */
+      char how[24] = "sum";
+      if ((bytes[m->err_off] >> 4) == 14 && m->err_off + 2 < len &&
+          269u + bytes[m->err_off + 1] * 256u + bytes[m->err_off + 2] > 65535u)
+        snprintf(how, sizeof how, "delta-ext-%02Xxx", bytes[m->err_off + 1]);
+      snprintf(sig, sizeof sig, "accept:%s:%s:%s", rc_reason_name(rr), how, fr);
       vx_fail(sig,
               "bytes=%s len=%zu libcoap accepted; reference rejects at offset %zu: option number %u > 65535 "
               "(libcoap's iterator ends at number %u)",
@@ -968,22 +1029,27 @@ define_spaces(void) {
   sp->kind = SK_TABLE;
   sp->mask = M_AQ | M_AT;
 
-  /* blind tails, asan: everything short; fast: the full declared spaces */
+  /* blind tails.  The declared spaces (all 256 values up to length 3, boundary alphabet 4..5 / 4..6) run
+   * completely on the fast stage in both tiers and under asan in thorough; asan-quick runs the short
+   * part of every space plus length 3 behind the one header where all three bytes are options. */
   for (int f = 0; f < 3; f++) {
     char nm[80];
     const uint8_t *main_modes = f == RC_TCP ? m_fit : m_zero;
-    /* all 256 byte values, length 0..2 (asan, both tiers) and 0..3 (fast both tiers, asan thorough) */
     snprintf(nm, sizeof nm, "%s-256-len0-2", fn[f]);
     sp = &spaces[nspaces++];
     space_blind(sp, nm, M_AQ, (enum rc_framing)f, 256, 0, 2);
     hv_product(sp, main_modes, 1);
+    space_blind_done(sp);
+    snprintf(nm, sizeof nm, "%s-256-len3-tkl0-get", fn[f]);
+    sp = &spaces[nspaces++];
+    space_blind(sp, nm, M_AQ, (enum rc_framing)f, 256, 3, 3);
+    sp->hv[sp->nhv++] = (struct hv){0, 0x01, main_modes[0]};
     space_blind_done(sp);
     snprintf(nm, sizeof nm, "%s-256-len0-3", fn[f]);
     sp = &spaces[nspaces++];
     space_blind(sp, nm, M_FQ | M_FT | M_AT, (enum rc_framing)f, 256, 0, 3);
     hv_product(sp, main_modes, 1);
     space_blind_done(sp);
-    /* boundary alphabet */
     snprintf(nm, sizeof nm, "%s-a20-len3-4", fn[f]);
     sp = &spaces[nspaces++];
     space_blind(sp, nm, M_AQ, (enum rc_framing)f, 20, 3, 4);
@@ -1018,6 +1084,15 @@ define_spaces(void) {
   sp = &spaces[nspaces++];
   space_blind(sp, "ws-lennibble-256-len0-2", M_AQ | M_AT, RC_WS, 256, 0, 2);
   hv_product(sp, m_wsbad, 3);
+  space_blind_done(sp);
+  /* beyond the declared spaces, thorough only, last so that a tight deadline cuts these first */
+  sp = &spaces[nspaces++];
+  space_blind(sp, "udp-256-len4-tkl0-get", M_FT, RC_UDP, 256, 4, 4);
+  sp->hv[sp->nhv++] = (struct hv){0, 0x01, 0};
+  space_blind_done(sp);
+  sp = &spaces[nspaces++];
+  space_blind(sp, "udp-a20-len6", M_AT, RC_UDP, 20, 6, 6);
+  hv_product(sp, m_zero, 1);
   space_blind_done(sp);
 }
 
